@@ -123,6 +123,8 @@ func runC11(c *Ctx) error {
 			fam = "firstchain"
 		case 2:
 			fam = "nulllist"
+		case 6:
+			fam = "manyterms" // item sets of several hundred items
 		}
 		gs = append(gs, richGrammarOf(c.Rng, fam))
 	}
